@@ -709,6 +709,12 @@ pub fn ref_scan(req: &[u8], n: usize) -> RefScan {
     let ar = be16(req, 10) as usize;
     let mut pos = 12usize;
     if s.qd == 1 {
+        if pos >= n {
+            // (redundant with ref_name's own end-of-buffer test; stated on
+            // concrete values so that CBMC prunes the rest of the scan)
+            s.problem = Problem::QuestionUnparseable;
+            return s;
+        }
         match ref_name(&req[..n], pos) {
             Ok(nm) => {
                 if pos + nm.first_chunk + 4 > n {
@@ -732,6 +738,13 @@ pub fn ref_scan(req: &[u8], n: usize) -> RefScan {
     let mut seen_opt = false;
     while i < total {
         let in_additional = i >= an + ns;
+        if pos >= n {
+            // (redundant fast path on concrete values, see above)
+            if s.problem == Problem::None {
+                s.problem = Problem::RecordNotDelimitable;
+            }
+            return s;
+        }
         // delimit the record: first chunk of the owner, 10 fixed octets, RDATA
         let first = match ref_skip(&req[pos..n]) {
             Ok(l) => l,
